@@ -374,7 +374,7 @@ def spec_to_code(ctx):
             stats['fail_14'] += t['err'] == 14
     nwalks = len(walks)
     # (b) simulated behaviours of the wide model (depth 8, all shapes incl. LEFT$/MID$/DEF FN)
-    nb = ctx.pick(250, 3000)
+    nb = ctx.pick(250, 1500)
     r = ctx.tlc('StringSpace_MC', 'StringSpace_MC_sim.cfg', workers=1, simulate='num=%d' % nb, tag='simulate',
                 extra=['-depth', '9', '-seed', str(ctx.seed + 1)])
     if not r['ok']:
@@ -518,7 +518,7 @@ def code_to_spec(ctx):
     for a in ARRS:
         d.s.ex('DIM %s(%s)' % (a[0], a[1]))
     ae_setup = int(d.s.ev(AE)[1])
-    nhist = ctx.pick(70, 400)
+    nhist = ctx.pick(70, 250)
     ops = 0
     plan = []
     for h in range(nhist):
@@ -580,7 +580,7 @@ def code_to_spec(ctx):
 
 def model_phases(ctx):
     # 1. design check: implementation-shaped layer against the reference layer, exhaustively on the bounded model
-    r = ctx.tlc('StringSpace_MC', ctx.pick('StringSpace_MC.cfg', 'StringSpace_MC_big.cfg'), workers=ctx.pick(4, 8), tag='model_check')
+    r = ctx.tlc('StringSpace_MC', ctx.pick('StringSpace_MC.cfg', 'StringSpace_MC_big.cfg'), workers=8, tag='model_check')
     ctx.cov['states'] += r['distinct']
     ctx.cov['transitions'] += r['generated']
     if not r['ok']:
